@@ -65,3 +65,13 @@ CLAIMED['C12'] = (
     NOTE_COMMON + 'Symmetry queries, negation search, PyFunction.is_monotone, TruthTable index-based shortcuts, define() and integer wrappers are '
     'modelled and correspondence/search-checked but not yet proved (partial, listed in evidence).',
     'Lean 4 proof (enumeration completeness, scan invariants) + exhaustive small-shape correspondence of three implementations')
+CLAIMED['C11'] = (
+    'DESIGN.md 5/C11',
+    'Theorems on character lists, for all identifier labels (incl. input*/OUTPUT* prefixed), all gate types and arities: a printed gate '
+    'line is never classified as blank/comment/declaration; the printed keyword dispatches to the same type (BUFF/IFF) and never triggers '
+    'the vdd shortcut; split/strip recover the operand list of any length in order; hence parseLine(format_gate(g)) adds exactly g '
+    '(label, type, operand order), with or without newline; INPUT(l)/OUTPUT(l) lines declare exactly l. Printer and parser models are '
+    'compared exactly with the code (formatted text, parsed circuits incl. users index, error classes) on circuits and on random '
+    'layouts (order, case, spaces, comments, aliases); the implementation round trip incl. the file path is checked on every circuit.',
+    NOTE_COMMON + 'Document-level assembly and layout-independence are not proved yet (partial); file IO is exercised through temp files only.',
+    'Lean 4 proof (string lemmas: strip/split/find, classification) + exact printer/parser correspondence')
